@@ -189,7 +189,7 @@ EDGE_WITNESS = {("Float", str(I53 - 1)), ("Float", str(-(I53 - 1))), ("Float!", 
 def oracle_c(ctx, model, triples, rows):
     """(C): the property's own predicates on the IMPLEMENTATION's results.
     1. domain and conformance of every `ok` result (Coq predicates cv_var_present / conforms_input, extracted);
-    2. the specification accepts the boundary integers at Float / ID: `err` there is the known class edge_int."""
+    2. the specification accepts the boundary integers at Float / ID (C28_edge_accepted): `err` there is a violation."""
     mc_of = {ic: mc for ic, mc, _ in triples}
     ok_rows = [r for r in rows if r[1].startswith("ok ")]
     lines = []
@@ -219,8 +219,6 @@ def oracle_c(ctx, model, triples, rows):
             fam["cases"] += 1
             if iobs.startswith("ok "):
                 fam["agree"] += 1
-            elif ctx.known_hit("edge_int"):
-                fam["known"] += 1
             else:
                 ctx.oracle_failures += 1
                 ctx.violation({"family": "coerce_vars", "case": ic, "model_case": mc_of[ic], "case_readable": rd,
